@@ -761,6 +761,52 @@ fn par_instance(tx: mpsc::Sender<Value>, seed: u64, flavor: String, exec: String
         api.wait();
         let _ = tx.send(json!({"ev":"Foreign","foreign":foreign.load(Ordering::SeqCst),"lookups":looked.load(Ordering::SeqCst)}));
     }
+    // (2d) clear() while other threads only LOOK UP (no writes in flight, so the known race D7 of clear() with buffered items
+    // cannot occur): the lookups keep the policy mutex and the counters busy; after clear() returned the cache is empty and the
+    // counters hold what was counted since, no more (ClearEmpties / MetricsLaws of Cache.tla under real parallelism)
+    let _ = tx.send(json!({"ev":"Op","completed":true,"begin":true,"what":"clear() under parallel lookups"}));
+    for round in 0..25u64 {
+        for k in 2..8u64 {
+            api.insert(k, 4_000_000 + round * 10 + k, 1, 0);
+        }
+        api.wait();
+        let stopf = Arc::new(AtomicBool::new(false));
+        let gets = Arc::new(std::sync::atomic::AtomicU64::new(0));
+        let hs: Vec<_> = (0..4u64)
+            .map(|t| {
+                let (api, stopf, gets) = (api.clone(), stopf.clone(), gets.clone());
+                std::thread::Builder::new()
+                    .name(format!("par-l{}", t))
+                    .spawn(move || {
+                        let mut i = t;
+                        while !stopf.load(Ordering::SeqCst) {
+                            // counted BEFORE the call: a lookup counted here has certainly started
+                            gets.fetch_add(1, Ordering::SeqCst);
+                            api.get(2 + i % 7);
+                            i += 1;
+                        }
+                    })
+                    .expect("spawn")
+            })
+            .collect();
+        std::thread::sleep(Duration::from_millis(3));
+        let g0 = gets.load(Ordering::SeqCst);
+        api.clear();
+        let g_ret = gets.load(Ordering::SeqCst);
+        std::thread::sleep(Duration::from_millis(2));
+        stopf.store(true, Ordering::SeqCst);
+        for h in hs {
+            let _ = h.join();
+        }
+        let g1 = gets.load(Ordering::SeqCst);
+        api.wait();
+        let p = post(&api.0);
+        // lookups that can have been counted after the reset: those started after the snapshot g0 (4 may have been in flight);
+        // lookups that must have been counted after it: those started after clear() returned
+        let _ = tx.send(json!({"ev":"ClearLoad","store":p["store"],"costs":p["costs"],"used":p["used"],"len":p["len"],
+            "hitmiss":p["met"]["hit"].as_i64().unwrap_or(0) + p["met"]["miss"].as_i64().unwrap_or(0),
+            "upper":g1 - g0 + 4,"lower":g1.saturating_sub(g_ret + 4)}));
+    }
     // (3) close() under load
     let _ = tx.send(json!({"ev":"Op","completed":true,"begin":true,"what":"close under load"}));
     let stop = Arc::new(AtomicBool::new(false));
@@ -778,6 +824,10 @@ fn par_instance(tx: mpsc::Sender<Value>, seed: u64, flavor: String, exec: String
                         api.remove(2 + (v % 6));
                     }
                     api.insert(2 + (v % 6), v, 1, 0);
+                    // two of the threads also wait(): a marker queued while the processor stops must not be lost
+                    if t < 2 {
+                        api.wait();
+                    }
                 }
                 finished.fetch_add(1, Ordering::SeqCst);
             })
